@@ -251,7 +251,7 @@ func (impl Implementation) Dggsvp3(jobU, jobV, jobQ lapack.GSVDJob, m, p, n int,
 
 		if wantq {
 			// Update Q[0:n, 0:n-l] := Q[0:n, 0:n-l]*Z1ᵀ.
-			impl.Dorm2r(blas.Right, blas.Trans, n, n-l, k, a, lda, tau[:k], q, ldq, work)
+			impl.Dormr2(blas.Right, blas.Trans, n, n-l, k, a, lda, tau[:k], q, ldq, work)
 		}
 
 		// Clean up A.
@@ -259,7 +259,7 @@ func (impl Implementation) Dggsvp3(jobU, jobV, jobQ lapack.GSVDJob, m, p, n int,
 		for i := 1; i < k; i++ {
 			r := a[i*lda+n-k-l : i*lda+i+n-k-l]
 			for j := range r {
-				a[j] = 0
+				r[j] = 0
 			}
 		}
 	}
